@@ -554,13 +554,16 @@ func run(tier string, scAny any, rep *runner.Report) {
 	if tier == "thorough" {
 		maxLen = 5
 	}
+	// every execution of this scenario runs through the same provisioned route list, one
+	// connection after the other: a failure that only shows after an earlier connection
+	// (state kept in a handler across connections) is replayed together with it
+	var seq runner.Seq
 	for _, s := range streams(maxLen) {
 		for _, fin := range []bool{true, false} {
 			ex := explore.New(bounds(tier))
-			ex.Explore(func(x *explore.Exec) { execute(x, sc, b, s, fin) })
 			one := *sc
 			one.Stream, one.FIN = s, fin
-			rep.AddStats(&one, &ex.Stats)
+			seq.Explore(ex, &one, rep, func(x *explore.Exec) { execute(x, sc, b, s, fin) })
 		}
 	}
 }
@@ -590,6 +593,21 @@ func main() {
 			b := build(sc)
 			defer b.cancel()
 			ex := explore.New(bounds("quick"))
+			x := ex.RunOnce(choices, func(x *explore.Exec) { execute(x, sc, b, sc.Stream, sc.FIN) })
+			return x.Failures
+		},
+		ReplayH: func(hist []runner.HistItem, scAny any, choices []int) []explore.Failure {
+			sc := scAny.(*Scn)
+			b := build(sc)
+			defer b.cancel()
+			ex := explore.New(bounds("quick"))
+			for _, it := range hist {
+				hs := &Scn{}
+				if err := json.Unmarshal(it.Scenario, hs); err != nil {
+					panic(err)
+				}
+				ex.RunOnce(it.Choices, func(x *explore.Exec) { execute(x, sc, b, hs.Stream, hs.FIN) })
+			}
 			x := ex.RunOnce(choices, func(x *explore.Exec) { execute(x, sc, b, sc.Stream, sc.FIN) })
 			return x.Failures
 		},
